@@ -686,6 +686,28 @@ def _run(ctx, res):
                         case=dict(late=True, trecv=trecv, dt=dt, tail=tail),
                         detail=[e for e in client.log if e[0] == "recv"]))
 
+    # a client that keeps STREAMING bytes (full-size reads, one byte short of it, several reads' worth at once) without
+    # ever completing a message: given up by accept + timeout_receive all the same, and the next message is served
+    for trecv in (2, 3):
+        for nrecv in (16, 64, 2048):
+            for chunk in (nrecv, nrecv - 1, 2 * nrecv, 5):
+                for dt in (0.1, 0.4, trecv - 0.5):
+                    r = S.streaming_junk_probe(trecv, nrecv, chunk, dt)
+                    res.note_case(("stream", trecv, nrecv, chunk, dt), True)
+                    res.count("streaming_junk_clients")
+                    case = dict(streaming=True, trecv=trecv, nrecv=nrecv, chunk=chunk, dt=dt)
+                    if r["hung"] or r["finish"] > trecv + 1.0 + 1e-9:
+                        res.failures.append(dict(
+                            signature="give-up-later-than-receive-timeout",
+                            what="a client delivering %d bytes every %.1f s (recv_bytes=%d) and never a whole message was "
+                                 "%s, timeout_receive=%d" % (chunk, dt, nrecv, "never given up" if r["hung"] else
+                                                             "given up %.2f s after accept" % r["finish"], trecv),
+                            case=case, detail=r))
+                    elif not r["valid_queued"]:
+                        res.failures.append(dict(signature="message-after-streaming-client-not-served",
+                                                 what="the valid message after a streaming client was not delivered",
+                                                 case=case, detail=r))
+
     # a connection reset (not in the model: oracle only) must not stop the listener either
     aes = dict(aes_messages(True))
     good = aes["sync-1"]
@@ -727,8 +749,20 @@ def _run(ctx, res):
 
 
 # --------------------------------------------------------------------------------------------- replay
+def replay_stream(case):
+    r = S.streaming_junk_probe(case["trecv"], case["nrecv"], case["chunk"], case["dt"])
+    print("a client delivering %d bytes every %.1f s, recv_bytes=%d, timeout_receive=%d, then a valid SYNC"
+          % (case["chunk"], case["dt"], case["nrecv"], case["trecv"]))
+    print("implementation:", r)
+    bad = r["hung"] or r["finish"] > case["trecv"] + 1.0 + 1e-9 or not r["valid_queued"]
+    print("held beyond the receive timeout" if bad else "given up within timeout_receive of the accept; next message served")
+    return 1 if bad else 0
+
+
 def replay(obj):
     case = obj.get("case") or {}
+    if case.get("streaming"):
+        return replay_stream(case)
     if case.get("late"):
         dist, dec, cr = get_dist("aes", case["trecv"], 2048)
         clock = S.FakeClock(start=1000.0, tick=0.02)
